@@ -79,6 +79,8 @@ Inv_C08(e) ==
       [] e.op = "ListSource" ->
             /\ e.words = List(e.lang) /\ e.file = Golden.filescp[e.lang + 1] /\ e.var = Golden.varscp[e.lang + 1]
       [] e.op = "Crash" -> FALSE          \* the process died inside the library while list words were being validated
+      [] e.op = "Gen" -> (Has(e, "golden") /\ e.golden =>       \* regenerated from the canonical upstream, the lists stay canonical
+            e.compiles /\ e.words = List(e.lang) /\ e.words = e.committed /\ e.var = Golden.varscp[e.lang + 1])
       [] OTHER -> TRUE
 
 SweepPredicted(e) ==        \* indices of the last words that complete prefix e.prefix to a valid sentence
@@ -135,6 +137,7 @@ AttributedOK(e) ==
     THEN e.err.nil /\ (IsSupported(e.lang) => e.out = Mnemonic(SubSeq(e.delivered, 1, nd), e.lang))
     ELSE e.out = <<>> /\ ~e.err.nil
 Inv_C06(e) ==
+    IF e.op = "SourceCheck" THEN e.same ELSE
     IF e.op = "NewMnemonic" /\ Has(e, "delivered") THEN NoCrash(e) /\ (BigOK(e.n) => AttributedOK(e)) ELSE
     e.op = "NewMnemonic" /\ BigOK(e.n) /\ source # "os" =>
         IF ReadFullOK
@@ -146,6 +149,8 @@ Inv_C06(e) ==
 
 Inv_C07(e) ==
     CASE e.op = "Swap" -> (source = "os" => e.prev_is_os)
+      [] e.op = "SourceCheck" -> e.same                   \* nothing but SwapSource changes the source (here: the one the harness installed)
+      [] e.op = "ByEntropy" -> (Has(e, "conc") /\ ValidEnc(e) => e.err.nil /\ e.out = Mnemonic(e.ent, e.lang))   \* imports do not touch the source
       [] e.op = "NewMnemonic" /\ Has(e, "delivered") ->      \* overlapping calls: each output is made of the bytes delivered to that call
             (e.err.nil /\ BigOK(e.n) /\ IsSupported(e.lang) =>
                 LET nd == e.n.v + e.n.v \div 3 IN Len(e.delivered) >= nd /\ e.out = Mnemonic(SubSeq(e.delivered, 1, nd), e.lang))
@@ -226,6 +231,7 @@ Inv_C13(e) ==
 IsConc(e) == Has(e, "conc") /\ e.conc
 Inv_C12(e) ==
     CASE e.op = "RaceReport" -> e.n = 0
+      [] e.op = "SourceCheck" -> e.same
       [] IsConc(e) /\ e.op = "NewMnemonic" /\ Has(e, "delivered") -> NoCrash(e) /\ (BigOK(e.n) => AttributedOK(e))
       [] IsConc(e) /\ e.op = "NewMnemonic" ->
             /\ NoCrash(e)
@@ -300,7 +306,7 @@ ProtocolBreak(e) ==
     (IF e.op \in {"Check", "Swap", "NewMnemonicCall", "ByEntropy", "ToSeed", "String"} /\ ~Idle THEN {<<l, "call while another is in flight">>} ELSE {})
     \cup (IF e.op = "NewMnemonic" /\ pc = "idle" THEN {<<l, "return without call">>} ELSE {})
 
-IsCall(e) == e.op \in {"RaceReport", "Crash", "NFKDProbe", "ByEntropy", "Check", "ToSeed", "String", "NewMnemonic", "Sweep", "Gen", "ListSource", "Swap", "Read", "OSRandom",
+IsCall(e) == e.op \in {"RaceReport", "Crash", "SourceCheck", "NFKDProbe", "ByEntropy", "Check", "ToSeed", "String", "NewMnemonic", "Sweep", "Gen", "ListSource", "Swap", "Read", "OSRandom",
                        "Recheck", "Buf", "CheckHuge", "ToSeedHuge"}
 
 Step ==
